@@ -478,8 +478,8 @@ pub fn construct<'a, V: Visit<'a>>(
             let mut cb = Compound::builder();
             concrete_depth_add(1);
             for m in members {
-                // nested members keep `owned`, never `wrap` a compound
-                let h = How { owned: how.owned, wrap: how.wrap && !m.is_compound(), probe: how.probe };
+                // members keep all route flags (a compound itself is never wrapped, only its leaves are)
+                let h = how;
                 cb = pr!(construct(m, h, fcis, next, AddTo(cb)));
             }
             concrete_depth_add(-1);
@@ -526,7 +526,7 @@ pub fn concrete_outcome(cfg: &Cfg, how: How, buf: Vec<u8>) -> Option<(WOut, WOut
         return None;
     }
     let mut next = 0;
-    let h = How { owned: how.owned, wrap: how.wrap && !cfg.is_compound(), probe: how.probe };
+    let h = How { owned: how.owned, wrap: how.wrap, probe: how.probe };
     CONCRETE_DEPTH.with(|c| c.set(0));
     CONCRETE_REQ.with(|c| *c.borrow_mut() = Some(buf));
     CONCRETE_RES.with(|c| *c.borrow_mut() = None);
@@ -563,7 +563,8 @@ pub fn with_writer<R>(cfg: &Cfg, how: How, f: impl FnOnce(&DynW) -> R) -> R {
         return f(&DynW(&ConstructionPanicked(p)));
     }
     let mut next = 0;
-    let h = How { owned: how.owned, wrap: how.wrap && !cfg.is_compound(), probe: how.probe };
+    // (a compound itself is never wrapped; `wrap` reaches its members, see the Compound arm of `construct`)
+    let h = How { owned: how.owned, wrap: how.wrap, probe: how.probe };
     // the setter (and probe) calls are calls into the crate too: observed, so that a panic in one
     // is attributed to the crate and surfaces as a panicking writer
     let built = call(|| construct(cfg, h, &fcis, &mut next, BoxIt));
